@@ -121,7 +121,8 @@ Proof.
       assert (Hw : Forall wfF (map fst wt)) by (rewrite Hfst; apply Forall_map; eapply Forall_impl; [|exact Hwf]; intros r Hr; apply (ctree_of_tree r Hr)).
       assert (Hl : Forall laminar (map fst wt)) by (rewrite Hfst; apply Forall_map; eapply Forall_impl; [|exact Hwf]; intros r Hr; apply (ctree_of_tree r Hr)).
       destruct (retained_weighted_wf thr _ Hw) as [H1 H2]. split; [exact H1|]. split; [exact H2|].
-      apply majority_laminar_weighted; [|rewrite Hsnd; exact Hsum| exact Ht| exact Hl].
+      assert (Hs' : (sumq (map snd wt) <= 1)%Qc) by (rewrite Hsnd; exact Hsum).
+      apply majority_laminar_weighted; [|exact Hs'| exact Ht| exact Hl].
       intros p Hp. unfold wt in Hp. apply in_map_iff in Hp as [q [<- Hq]]. cbn [snd]. now apply Hpos. }
   destruct H as (Hw & Hnd & Hl). destruct (consensus_total F Hw Hnd Hl) as [E HE]. exists E.
   split; [exact HE|]. split; [|split].
